@@ -368,6 +368,8 @@ class Interp:
             if key in self.contracts:
                 return self.contracts[key](self, None, args, kwargs)
             return self.call_function(f.module, f.node, args, kwargs, f.defcls)
+        if hasattr(f, "sym_call"):
+            return f.sym_call(self, args, kwargs)
         if isinstance(f, ClassRef):
             return self.instantiate(f.cls, args, kwargs)
         if isinstance(f, BuiltinExcClass):
@@ -615,6 +617,8 @@ class Interp:
             if attr in o.fields:
                 return o.fields[attr]
             cands = getattr(o, "candidates", None)
+            if cands and len(cands) > 1 and attr == "__class__" and hasattr(o, "lazy_class"):
+                return o.lazy_class(self)
             if cands and len(cands) > 1:
                 # class not decided yet: fine as long as every candidate class resolves attr to the same source text
                 found = [self.world.cls(c).find(attr) for c in cands]
@@ -1483,6 +1487,19 @@ def _b_frozenset(it, x=None):
 
 
 def _b_tuple(it, x=()):
+    if isinstance(x, GenIter) and not x.consumed and not hasattr(x, "_pre") and len(x.node.generators) == 1 and not x.node.generators[0].ifs:
+        g = x.node.generators[0]
+        src = it.ev(g.iter, x.fr)
+        x._pre = src
+        if hasattr(src, "sym_map"):
+            def f(e_):
+                fr2 = Frame(x.fr.module, dict(x.fr.env), x.fr.defcls, x.fr.self_obj)
+                it.assign(g.target, e_, fr2)
+                return it.ev(x.node.elt, fr2)
+            r = src.sym_map(it, f)
+            if r is not NotHandled:
+                x.consumed = True
+                return r
     if hasattr(x, "sym_to_tuple"):
         return x.sym_to_tuple(it)
     return tuple(it.iterate(x))
